@@ -244,6 +244,22 @@ func init() {
 				cse.TimeoutMS = 90000
 				cs = append(cs, cse)
 			}
+			// a limit reached while thousands of idle workers are being woken tick after tick: every one of them notices the stop
+			nth := 1
+			if tier == "thorough" {
+				nth = 4
+			}
+			for i := 0; i < nth; i++ {
+				p := c05Params{Ending: "limit", Blocking: "none", BoundMS: 4000, Reps: 10}
+				p.Spec = engine.RateSpec("constant", 1, 1, 4000)
+				p.Spec.MaxIterations, p.Spec.MaxDurationMS, p.Spec.IgnoreDropped = 30, 30000, true
+				p.Desc = "mode=constant(1/1ms) c=4000 ending=limit(N=30) blocking=none x10 (stop during a thundering herd)"
+				cse := core.MkCase("C05", "run", 7300+i, seed, p)
+				cse.Solo = true
+				cse.Procs = 16
+				cse.TimeoutMS = 180000
+				cs = append(cs, cse)
+			}
 			// config files whose stages end long before max-duration: triggering stops at the stages' total, and the
 			// wait for iterations that never finish is the completion timeout
 			for i, blocking := range []string{"none", "forever", "none"} {
@@ -341,7 +357,7 @@ func init() {
 				ns = 10
 			}
 			for i := 0; i < ns; i++ {
-				for j, s := range []string{"late-tick", "slow-output", "tick-at-finish", "stop-path"} {
+				for j, s := range []string{"late-tick", "slow-output", "tick-at-finish", "stop-path", "zero-duration"} {
 					mode := pick(r, "users", "constant", "custom")
 					if s == "stop-path" && mode == "users" {
 						mode = "constant"
@@ -359,7 +375,7 @@ func init() {
 						p.SlowMS = 1600
 					}
 					p.Desc = fmt.Sprintf("script=%s mode=%s interactive=%v slow=%dms", s, mode, p.Spec.Interactive, p.SlowMS)
-					cse := core.MkCase("C05", "script", i*4+j, seed, p)
+					cse := core.MkCase("C05", "script", i*5+j, seed, p)
 					cse.Race = i%2 == 0
 					cse.Solo = true
 					cse.TimeoutMS = 45000
@@ -878,6 +894,33 @@ func c05Script(c *core.Case, o *core.Outcome) {
 			}
 		case <-time.After(20 * time.Second):
 			o.Violate("do-never-returns:"+p.Desc, "Do had not returned 20 s after the stop path was let go (%s)", p.Desc)
+			return
+		}
+	case "zero-duration":
+		// a max-duration of zero leaves no time to start anything, whatever duration the trigger has of its own (a staged
+		// profile of one second here)
+		spec := engine.Spec{Mode: "staged", Stages: "0s:5,1s:5", FreqMS: 100, Distribution: "none", Concurrency: 2, MaxDurationMS: 0, IgnoreDropped: true}
+		if p.Spec.Mode == "users" {
+			spec.Mode, spec.Stages = "gaussian", ""
+			spec = engine.RateSpec("gaussian", 5, 100, 2)
+			spec.MaxDurationMS, spec.IgnoreDropped = 0, true
+		}
+		done := make(chan *engine.Run, 1)
+		go func() { done <- engine.Execute(ctx, spec, l, scenario, nil, nil) }()
+		select {
+		case r := <-done:
+			if r.NewErr != nil {
+				o.Inconc("harness: %v", r.NewErr)
+				return
+			}
+		case <-time.After(20 * time.Second):
+			cancel()
+			<-done
+			o.Violate(key, "a run with max-duration 0 was still going after 20 s (%s trigger)", spec.Mode)
+			return
+		}
+		if n := started.Load(); n > 0 {
+			o.Violate(key, "a run with max-duration 0 started %d iterations (%s trigger): triggering went on after the run's duration had elapsed", n, spec.Mode)
 			return
 		}
 	case "slow-output":
